@@ -43,3 +43,35 @@ Proof.
   { unfold x1, water_in_of. cbn [wi_wdt]. rewrite <- Ek. rewrite INR_IZR_INZ, Z2Nat.id by lia. lra. }
   exact (day_lower_nonevap_lemma x1 n k Hwf1 Hp Hfl eq_refl Hcov' Hwmin Htp Hstart Hfit).
 Qed.
+
+(* ---- the upper bound at every sub-step of a day (any number of sub-steps), and for the composed day ---- *)
+Lemma water_iter_upper k : forall (x : water_in (T:=R)) n,
+  wf_in x n ->
+  Forall (fun o => forall i, (i < n)%nat ->
+            get 0 (wo_wg1 o) i <= get 0 (wi_w x) i
+              + (if Nat.eqb (S i) (wo_caplay o) then wo_capterm o / 10 else 0))
+         (water_iter k x).
+Proof.
+  induction k as [|k IH]; intros x n Hwf; cbn [water_iter]; [constructor|].
+  cbv zeta. constructor.
+  - exact (upper_bound_lemma x n Hwf).
+  - destruct (water_next_wf x n Hwf) as [Hwf' _].
+    specialize (IH (water_next x (water_step x)) n Hwf').
+    change (wi_w (water_next x (water_step x))) with (wi_w x) in IH. exact IH.
+Qed.
+
+Lemma day_upper_composed_lemma (x : day_in (T:=R)) (n : nat) :
+  day_wf x n ->
+  let o := day_water x in
+  Forall (fun o' => forall i, (i < n)%nat ->
+            get 0 (wo_wg1 o') i <= get 0 (di_w x) i
+              + (if Nat.eqb (S i) (wo_caplay o') then wo_capterm o' / 10 else 0))
+         (do_outs o).
+Proof.
+  intros Hwf o. subst o. unfold day_water.
+  set (regen := day_regen x). set (e := evatra_struct (evatra_in_of x regen)).
+  destruct (steps_of (wdt_of (zsr_of (eo_fluss0 e) regen (di_w x) (di_wg1 x)))) as [steps wdt].
+  cbn [do_outs].
+  pose proof (water_iter_upper (Z.to_nat steps) (water_in_of x e wdt) n (water_in_of_wf x regen wdt n Hwf)) as H.
+  exact H.
+Qed.
